@@ -209,6 +209,19 @@ def step (s0 : St) (line : String) : St × String :=
       if !(noNul sc && noNul key) then (s, "bad-op") else
       (s, optHex (cfGet s.env s.cf s.store sc key))
     | _, _ => (s, "bad-op")
+  | ["setself", hs, hk, off] =>
+    match parseHex hs, parseHex hk, off.toNat? with
+    | some sc, some key, some o =>
+      if !(noNul sc && noNul key) || o > 1000 then (s, "bad-op") else
+      match cfGet s.env s.cf s.store sc key with
+      | none => (s, "nil")
+      | some old =>
+        if old.length < o then (s, "range") else
+        let (st', ok) := cfSet s.env s.cf s.store sc key (old.drop o)
+        let e := match st'.log with | none => "none" | some e => cfErrStr e
+        ({ s with store := st' },
+          s!"{if ok then 1 else 0} {optHex (cfGet s.env s.cf st' sc key)} live=0 ## err={e}")
+    | _, _, _ => (s, "bad-op")
   | ["dump"] =>
     let items := (dumpList s.schema).map fun (sc, key) => optHex (cfGet s.env s.cf s.store (bs sc) (bs key))
     let raws := (slotList s.schema).filterMap fun l =>
